@@ -78,6 +78,7 @@ package markdown
 //@ func (*MarkdownTable).RenderTo
 //@   tags C08,C15,C09,C14
 //@   requires mt != nil && tbl(mt.Table) && mtab(mt).nColumns <= 1099511627774
+//@   assigns heap[tabular.propertyImpl.properties], new(tabular.valueProperty), mtab(mt).ErrorContainer.errors_, elemscap(mtab(mt).ErrorContainer.errors_), ghost cbErrN, ghost cbErrLog, ghost cbCallN, ghost cbCallSelf, ghost cbCallOwner, ghost stage, ghost fires, ghost stageR, ghost firesR, ghost stageT, ghost stageC, ghost Wn, ghost Wchunk, ghost Wfailed, ghost mdLineN, ghost mdLinePipes, ghost mdPipes, new(int), new(string), new(tabular.Cell), new(align.Alignment)
 //@   call InvokeRenderCallbacks after assume alignOK(mtab(mt))
 //@   requires [writer-ok] !Wfailed
 //@   ensures [table-still-wellformed] tbl(mt.Table) @C09,C14
